@@ -12,7 +12,7 @@ use std::sync::Arc;
 
 pub const SLOTS: usize = 6;
 pub const SLOT_NAMES: [&str; SLOTS] = ["a", "b", "list[0]", "list[1]", "map[m]", "nested.x"];
-pub const PAYLOADS: [&str; 6] = ["String", "Vec<i64>", "BTreeMap<String,i64>", "Option<i64>", "()", "struct Inner{z,r:RcAnchor<String>}"];
+pub const PAYLOADS: [&str; 8] = ["String", "Vec<i64>", "BTreeMap<String,i64>", "Option<i64>", "()", "struct Inner{z,r:RcAnchor<String>}", "multi-line String", "struct InnerW{z,keep:RcAnchor<String>,w:RcWeakAnchor<String>}"];
 
 #[derive(Clone, Debug, Serialize, Deserialize)]
 pub struct Case {
@@ -31,6 +31,8 @@ pub struct Case {
 #[serde(bound(deserialize = "P: DeserializeOwned + 'static", serialize = "P: Serialize"))]
 struct NestedRc<P> {
     x: RcAnchor<P>,
+    /// weak edge in mapping-value position of a nested struct (weak spec 1, dangling if absent)
+    w: RcWeakAnchor<P>,
 }
 #[derive(Debug, Serialize, Deserialize)]
 #[serde(bound(deserialize = "P: DeserializeOwned + 'static", serialize = "P: Serialize"))]
@@ -40,6 +42,8 @@ struct DocRc<P> {
     list: Vec<RcAnchor<P>>,
     map: BTreeMap<String, RcAnchor<P>>,
     nested: NestedRc<P>,
+    /// weak edge in mapping-value position (weak spec 0, dangling if absent)
+    wfield: RcWeakAnchor<P>,
     weak: Vec<RcWeakAnchor<P>>,
 }
 // ---- Arc flavour
@@ -47,6 +51,7 @@ struct DocRc<P> {
 #[serde(bound(deserialize = "P: DeserializeOwned + Send + Sync + 'static", serialize = "P: Serialize"))]
 struct NestedArc<P> {
     x: ArcAnchor<P>,
+    w: ArcWeakAnchor<P>,
 }
 #[derive(Debug, Serialize, Deserialize)]
 #[serde(bound(deserialize = "P: DeserializeOwned + Send + Sync + 'static", serialize = "P: Serialize"))]
@@ -56,6 +61,7 @@ struct DocArc<P> {
     list: Vec<ArcAnchor<P>>,
     map: BTreeMap<String, ArcAnchor<P>>,
     nested: NestedArc<P>,
+    wfield: ArcWeakAnchor<P>,
     weak: Vec<ArcWeakAnchor<P>>,
 }
 
@@ -67,6 +73,49 @@ struct Inner {
 impl PartialEq for Inner {
     fn eq(&self, o: &Self) -> bool {
         self.z == o.z && *self.r.0 == *o.r.0
+    }
+}
+/// payload with a weak edge inside an anchored node: to `keep` (odd z) or dangling (even z)
+#[derive(Debug, Serialize, Deserialize)]
+struct InnerW {
+    z: i64,
+    keep: RcAnchor<String>,
+    w: RcWeakAnchor<String>,
+}
+impl InnerW {
+    fn new(i: u8) -> Self {
+        let keep = Rc::new(format!("in{}q", i));
+        let w = if i % 2 == 1 { Rc::downgrade(&keep) } else { Rc::downgrade(&Rc::new(String::new())) };
+        InnerW { z: 7000 + i as i64, keep: RcAnchor(keep), w: RcWeakAnchor(w) }
+    }
+    fn shape(&self) -> (i64, String, Option<bool>) {
+        (self.z, (*self.keep.0).clone(), self.w.upgrade().map(|u| Rc::ptr_eq(&u, &self.keep.0)))
+    }
+}
+impl PartialEq for InnerW {
+    fn eq(&self, o: &Self) -> bool {
+        self.shape() == o.shape()
+    }
+}
+#[derive(Debug, Serialize, Deserialize)]
+struct InnerWArc {
+    z: i64,
+    keep: ArcAnchor<String>,
+    w: ArcWeakAnchor<String>,
+}
+impl InnerWArc {
+    fn new(i: u8) -> Self {
+        let keep = Arc::new(format!("in{}q", i));
+        let w = if i % 2 == 1 { Arc::downgrade(&keep) } else { Arc::downgrade(&Arc::new(String::new())) };
+        InnerWArc { z: 7000 + i as i64, keep: ArcAnchor(keep), w: ArcWeakAnchor(w) }
+    }
+    fn shape(&self) -> (i64, String, Option<bool>) {
+        (self.z, (*self.keep.0).clone(), self.w.upgrade().map(|u| Arc::ptr_eq(&u, &self.keep.0)))
+    }
+}
+impl PartialEq for InnerWArc {
+    fn eq(&self, o: &Self) -> bool {
+        self.shape() == o.shape()
     }
 }
 #[derive(Debug, Serialize, Deserialize)]
@@ -96,7 +145,15 @@ fn check_rc<P: Serialize + DeserializeOwned + PartialEq + Debug + 'static>(c: &C
     }
     let mut map = BTreeMap::new();
     map.insert("m".to_string(), slot(4));
-    let doc = DocRc { a: slot(0), b: slot(1), list: vec![slot(2), slot(3)], map, nested: NestedRc { x: slot(5) }, weak };
+    let mk_weak = |spec: Option<&Option<u8>>| -> RcWeakAnchor<P> {
+        match spec {
+            Some(Some(cl)) => RcWeakAnchor(Rc::downgrade(&allocs[*cl as usize])),
+            _ => RcWeakAnchor(Rc::downgrade(&Rc::new(make(9)))),
+        }
+    };
+    // a weak edge nested below `nested` must come after its strong target: only classes of earlier slots
+    let nested_spec = c.weak.get(1).filter(|w| w.map(|cl| (0..5).any(|i| c.classes[i] == cl)).unwrap_or(true));
+    let doc = DocRc { a: slot(0), b: slot(1), list: vec![slot(2), slot(3)], map, nested: NestedRc { x: slot(5), w: mk_weak(nested_spec) }, wfield: mk_weak(c.weak.first()), weak };
     let text = match guarded(|| serde_saphyr::to_string(&doc)) {
         Err(p) => return Err(("panic_ser".into(), p)),
         Ok(Err(e)) => return Err(("ser_error".into(), e.to_string())),
@@ -142,23 +199,25 @@ fn check_rc<P: Serialize + DeserializeOwned + PartialEq + Debug + 'static>(c: &C
     if back.weak.len() != c.weak.len() {
         return Err(("weak_count".into(), format!("emitted {:?}; {} weak edges read back, expected {}", text, back.weak.len(), c.weak.len())));
     }
-    for (wi, w) in c.weak.iter().enumerate() {
-        let up = back.weak[wi].upgrade();
+    let mut edges: Vec<(String, Option<u8>, Option<Rc<P>>)> = c.weak.iter().enumerate().map(|(wi, w)| (format!("weak[{}]", wi), *w, back.weak[wi].upgrade())).collect();
+    edges.push(("wfield".to_string(), c.weak.first().cloned().flatten(), back.wfield.upgrade()));
+    edges.push(("nested.w".to_string(), nested_spec.cloned().flatten(), back.nested.w.upgrade()));
+    for (label, w, up) in edges {
         match w {
             None => {
                 if up.is_some() {
-                    return Err(("dangling_weak_resolved".into(), format!("emitted {:?}; weak edge {} was dangling but resolves after read-back", text, wi)));
+                    return Err(("dangling_weak_resolved".into(), format!("emitted {:?}; weak edge {} was dangling but resolves after read-back", text, label)));
                 }
             }
             Some(cl) => {
-                let target = present.iter().find(|&&i| c.classes[i] == *cl).map(|&i| after[i].as_ref().unwrap());
+                let target = present.iter().find(|&&i| c.classes[i] == cl).map(|&i| after[i].as_ref().unwrap());
                 match (up, target) {
                     (Some(u), Some(t)) => {
                         if !Rc::ptr_eq(&u, t) {
-                            return Err(("weak_points_elsewhere".into(), format!("emitted {:?}; weak edge {} does not point to the allocation of class {}", text, wi, cl)));
+                            return Err(("weak_points_elsewhere".into(), format!("emitted {:?}; weak edge {} does not point to the allocation of class {}", text, label, cl)));
                         }
                     }
-                    (None, Some(_)) => return Err(("live_weak_lost".into(), format!("emitted {:?}; weak edge {} to live class {} is dangling after read-back", text, wi, cl))),
+                    (None, Some(_)) => return Err(("live_weak_lost".into(), format!("emitted {:?}; weak edge {} to live class {} is dangling after read-back", text, label, cl))),
                     _ => {}
                 }
             }
@@ -192,7 +251,14 @@ fn check_arc<P: Serialize + DeserializeOwned + PartialEq + Debug + Send + Sync +
     }
     let mut map = BTreeMap::new();
     map.insert("m".to_string(), slot(4));
-    let doc = DocArc { a: slot(0), b: slot(1), list: vec![slot(2), slot(3)], map, nested: NestedArc { x: slot(5) }, weak };
+    let mk_weak = |spec: Option<&Option<u8>>| -> ArcWeakAnchor<P> {
+        match spec {
+            Some(Some(cl)) => ArcWeakAnchor(Arc::downgrade(&allocs[*cl as usize])),
+            _ => ArcWeakAnchor(Arc::downgrade(&Arc::new(make(9)))),
+        }
+    };
+    let nested_spec = c.weak.get(1).filter(|w| w.map(|cl| (0..5).any(|i| c.classes[i] == cl)).unwrap_or(true));
+    let doc = DocArc { a: slot(0), b: slot(1), list: vec![slot(2), slot(3)], map, nested: NestedArc { x: slot(5), w: mk_weak(nested_spec) }, wfield: mk_weak(c.weak.first()), weak };
     let text = match guarded(|| serde_saphyr::to_string(&doc)) {
         Err(p) => return Err(("panic_ser".into(), p)),
         Ok(Err(e)) => return Err(("ser_error".into(), e.to_string())),
@@ -234,23 +300,25 @@ fn check_arc<P: Serialize + DeserializeOwned + PartialEq + Debug + Send + Sync +
     if back.weak.len() != c.weak.len() {
         return Err(("weak_count".into(), format!("emitted {:?}; {} weak edges read back, expected {}", text, back.weak.len(), c.weak.len())));
     }
-    for (wi, w) in c.weak.iter().enumerate() {
-        let up = back.weak[wi].upgrade();
+    let mut edges: Vec<(String, Option<u8>, Option<Arc<P>>)> = c.weak.iter().enumerate().map(|(wi, w)| (format!("weak[{}]", wi), *w, back.weak[wi].upgrade())).collect();
+    edges.push(("wfield".to_string(), c.weak.first().cloned().flatten(), back.wfield.upgrade()));
+    edges.push(("nested.w".to_string(), nested_spec.cloned().flatten(), back.nested.w.upgrade()));
+    for (label, w, up) in edges {
         match w {
             None => {
                 if up.is_some() {
-                    return Err(("dangling_weak_resolved".into(), format!("emitted {:?}; weak edge {} was dangling but resolves", text, wi)));
+                    return Err(("dangling_weak_resolved".into(), format!("emitted {:?}; weak edge {} was dangling but resolves after read-back", text, label)));
                 }
             }
             Some(cl) => {
-                let target = present.iter().find(|&&i| c.classes[i] == *cl).map(|&i| after[i].as_ref().unwrap());
+                let target = present.iter().find(|&&i| c.classes[i] == cl).map(|&i| after[i].as_ref().unwrap());
                 match (up, target) {
                     (Some(u), Some(t)) => {
                         if !Arc::ptr_eq(&u, t) {
-                            return Err(("weak_points_elsewhere".into(), format!("emitted {:?}; weak edge {} does not point to class {}", text, wi, cl)));
+                            return Err(("weak_points_elsewhere".into(), format!("emitted {:?}; weak edge {} does not point to the allocation of class {}", text, label, cl)));
                         }
                     }
-                    (None, Some(_)) => return Err(("live_weak_lost".into(), format!("emitted {:?}; weak edge {} to live class {} is dangling", text, wi, cl))),
+                    (None, Some(_)) => return Err(("live_weak_lost".into(), format!("emitted {:?}; weak edge {} to live class {} is dangling after read-back", text, label, cl))),
                     _ => {}
                 }
             }
@@ -294,11 +362,15 @@ impl Prop for C14 {
             (3, false) => check_rc::<Option<i64>>(c, |i| if i % 2 == 0 { None } else { Some(7000 + i as i64) }, |_| None),
             (4, false) => check_rc::<()>(c, |_| (), |_| None),
             (5, false) => check_rc::<Inner>(c, |i| Inner { z: 7000 + i as i64, r: RcAnchor(Rc::new(format!("in{}q", i))) }, |i| Some(format!("in{}q", i))),
+            (6, false) => check_rc::<String>(c, |i| format!("v{}q\nsecond line\n", i), s),
+            (7, false) => check_rc::<InnerW>(c, InnerW::new, |i| Some(format!("in{}q", i))),
             (0, true) => check_arc::<String>(c, |i| format!("v{}q", i), s),
             (1, true) => check_arc::<Vec<i64>>(c, |i| vec![7000 + i as i64, 1], |i| Some(format!("{}", 7000 + i as i64))),
             (2, true) => check_arc::<BTreeMap<String, i64>>(c, |i| [("k".to_string(), 7000 + i as i64)].into_iter().collect(), |i| Some(format!("{}", 7000 + i as i64))),
             (3, true) => check_arc::<Option<i64>>(c, |i| if i % 2 == 0 { None } else { Some(7000 + i as i64) }, |_| None),
             (4, true) => check_arc::<()>(c, |_| (), |_| None),
+            (6, true) => check_arc::<String>(c, |i| format!("v{}q\nsecond line\n", i), s),
+            (7, true) => check_arc::<InnerWArc>(c, InnerWArc::new, |i| Some(format!("in{}q", i))),
             (_, true) => check_arc::<InnerArc>(c, |i| InnerArc { z: 7000 + i as i64, r: ArcAnchor(Arc::new(format!("in{}q", i))) }, |i| Some(format!("in{}q", i))),
             _ => unreachable!(),
         };
@@ -529,7 +601,7 @@ pub fn run(ctx: &Ctx) -> i32 {
     acc.notes.insert("strong_slot_layout".into(), json!(SLOT_NAMES));
     let meta = Meta {
         level: "model_checking",
-        rule: "every set partition of the first k strong slots (struct fields, sequence elements, map value, nested struct) into shared allocations, x 6 payload kinds x Rc|Arc x weak-edge sets (to each live class / to a dropped target; pairs), plus chains of n nodes through the recursive wrappers with every back edge; non-trivial = some allocation is shared or a live weak edge exists".into(),
+        rule: "every set partition of the first k strong slots (struct fields, sequence elements, map value, nested struct) into shared allocations, x 8 payload kinds (incl. a multi-line string and a node holding a weak edge) x Rc|Arc x weak-edge sets (to each live class / to a dropped target; pairs; each edge in sequence position, in mapping-value position and inside a nested struct), plus chains of n nodes through the recursive wrappers with every back edge; non-trivial = some allocation is shared or a live weak edge exists".into(),
         exhaustive: true,
         bounds: json!({"max_strong_slots": kmax, "payloads": PAYLOADS, "cycle_len": ctx.tier.pick(3, 4)}),
         assumptions: vec!["sharing relation compared by Rc::ptr_eq / Arc::ptr_eq on every pair of slots".into()],
